@@ -269,10 +269,14 @@ impl WmoParser {
         let n_doodad_defs = reader.read_u32_le()?;
         let n_doodad_sets = reader.read_u32_le()?;
         let color_bytes = reader.read_u32_le()?;
-        let flags = WmoFlags::from_bits_truncate(reader.read_u32_le()?);
+        let _wmo_id = reader.read_u32_le()?;
 
-        // Skip some fields (depending on version)
-        reader.seek(SeekFrom::Current(8))?; // Skip bounding box - we'll calculate this from groups
+        // Skip bounding box (6 floats) - we'll calculate this from groups
+        reader.seek(SeekFrom::Current(24))?;
+
+        // Flags are the u16 at 0x3C, followed by the LOD count
+        let flags = WmoFlags::from_bits_truncate(reader.read_u16_le()? as u32);
+        let _num_lod = reader.read_u16_le()?;
 
         // Create color from bytes
         let ambient_color = Color {
